@@ -137,12 +137,13 @@ def run_shard(spec, acc):
     dbx = refdb.db()
     quick = spec["tier"] == "quick"
     dec, enc = NMEA2000Decoder(), NMEA2000Encoder()
-    defs = [d for d in dbx.defs if d.encodable]
-    defs = [d for k, d in enumerate(defs) if k % spec["n"] == spec["i"]]
-    for d in defs:
-        rng = gen.rng_for(spec["seed"], ID, d.id)
+    defs = gen.shard_by_pgn([d for d in dbx.defs if d.encodable], spec["i"], spec["n"])
+    # sibling definitions interleaved (rep-major order): what was encoded before must not matter
+    order = [(rep, d) for rep in range(3 if quick else 120) for d in defs]
+    for rep, d in order:
+        rng = gen.rng_for(spec["seed"], ID, d.id, rep)
         nb = d.length if d.length is not None else (d.total_bits() + 7) // 8
-        for rep in range(3 if quick else 120):
+        for _once in (0,):
             base_payload = dbx.pack(d, gen.base_raws(d, rng, dbx))
             if dbx.select(d.pgn, base_payload) is not d:
                 continue
